@@ -1,4 +1,4 @@
 SPECIFICATION Spec
-CONSTANTS NTok = 111 MaxLen = 3
+CONSTANTS NTok = 111 MaxLen = 3 NTokLong = 61
 INVARIANT Emit
 CHECK_DEADLOCK FALSE
